@@ -59,7 +59,7 @@ package fox
 //@   -- and nothing is allocated when it is already large enough
 //@   ensures @C16,C12 cap-kept: cap(*dst) >= old(cap(*dst)) && cap(*dst) >= len(*src)
 //@   ensures @C16,C12 in-place: old(cap(*dst)) >= len(*src) ==> nextref == old(nextref)
-//@   ensures @C12,C08 copied: forall i int :: {(*dst)[i]} 0 <= i && i < len(*src) ==> (*dst)[i] == (*src)[i]
+//@   ensures @C12,C08 copied: forall i int :: {(*dst)[i]} 0 <= i && i < len(*src) ==> (*dst)[i] == old((*src)[i])
 
 //@ func (*cTx).Close props C12
 //@   requires c != nil && c.tree != nil
